@@ -12,10 +12,11 @@ Theorem C04_powerloss_atomic : forall I d0 tr,
 Proof. exact SyncProto_proofs.powerloss_atomic. Qed.
 Print Assumptions C04_powerloss_atomic.
 
-(* The hypothesis wal_safe cannot be dropped: the source skips the fsync of the post-meta WAL
-   truncation, so the previous multi-page blob may still be durable when the next sync rewrites
-   the WAL; a power loss can then leave the old header page followed by a page of the new blob,
-   which reopening would re-apply (F8).  A disciplined trace with such an image: *)
+(* The hypothesis wal_safe cannot be dropped: if the post-meta WAL truncation is not made durable
+   (as in the pinned source), the previous multi-page blob may still be on disk when the next
+   sync rewrites the WAL; a power loss can then leave the old header page followed by a page of
+   the new blob, which reopening would re-apply (F8, exhibited on the real code and repaired in
+   /repo).  A disciplined trace with such an image: *)
 Theorem C04_wal_unsafe_refuted : exists I d0 tr n img,
   inst_ok I /\ start_ok I d0 /\ discipline I d0 tr = true /\
   pl_image (drun d0 (firstn n tr)) img /\ recover I img = RBad.
@@ -44,3 +45,20 @@ Print Assumptions C04_ht_fsync_necessary.
 Theorem C04_sync_phase_order : sync_order_ok = true /\ sync_order_ok2 = true.
 Proof. exact SrcFacts_proofs.sync_order_ok_true. Qed.
 Print Assumptions C04_sync_phase_order.
+
+(* With the truncation fsynced (the repaired protocol: every complete sync ends with
+   [ET FWal 0; EF FWal]) the hypothesis re-establishes itself: after a disciplined complete sync
+   the WAL has nothing pending and is durably empty ... *)
+Theorem C04_next_start_wal_safe : forall I d0 tr,
+  inst_ok I -> start_ok I d0 -> discipline I d0 tr = true -> complete tr ->
+  fpend (fget (drun d0 tr) FWal) = [] /\ wal_is (image_of_durable (drun d0 tr)) 0 [] = true.
+Proof. exact SyncProto_proofs.next_start_wal_safe. Qed.
+Print Assumptions C04_next_start_wal_safe.
+
+(* ... so along a whole history of disciplined complete syncs EVERY sync is power-loss atomic;
+   only the first one needs wal_safe (a freshly opened store: the WAL was durably truncated) *)
+Theorem C04_history_atomic : forall h d0,
+  match h with [] => True | (J, _) :: _ => wal_safe J d0 end ->
+  history d0 h -> all_atomic d0 h.
+Proof. exact SyncProto_proofs.history_atomic. Qed.
+Print Assumptions C04_history_atomic.
